@@ -1394,3 +1394,117 @@ Proof.
     [|symmetry; apply split3; lia].
   f_equal. f_equal. change 64 with ifd_region_section_size. rewrite DS, BZ. reflexivity.
 Qed.
+
+(* ------------------------------------------------------------------ *)
+(* parsing: the slots                                                  *)
+(* ------------------------------------------------------------------ *)
+
+Lemma zlen_firstn_le {A} n (l : list A) : zlen (firstn n l) <= Z.of_nat n.
+Proof. unfold zlen. rewrite firstn_length. lia. Qed.
+
+Lemma rd_bound off w b : bytes_ok b = true -> 0 <= rd off w b < 256 ^ Z.of_nat w.
+Proof.
+  intros OK. unfold rd.
+  pose proof (le_dec_bound (sub off (Z.of_nat w) b) (bytes_ok_sub _ _ _ OK)) as [H1 H2].
+  split; auto. eapply Z.lt_le_trans; eauto.
+  apply Z.pow_le_mono_r; try lia. split; [apply zlen_nonneg|].
+  unfold sub, zfirstn. pose proof (zlen_firstn_le (Z.to_nat (Z.of_nat w)) (zskipn off b)). lia.
+Qed.
+
+Lemma rd2_bound off b : bytes_ok b = true -> 0 <= rd off 2 b < 65536.
+Proof. intros H. apply (rd_bound off 2 b H). Qed.
+Lemma rd1_bound off b : bytes_ok b = true -> 0 <= rd off 1 b < 256.
+Proof. intros H. apply (rd_bound off 1 b H). Qed.
+
+Lemma le_enc_rd off w b : bytes_ok b = true -> 0 <= off -> off + Z.of_nat w <= zlen b ->
+  le_enc w (rd off w b) = sub off (Z.of_nat w) b.
+Proof.
+  intros OK H1 H2. unfold rd.
+  assert (L : length (sub off (Z.of_nat w) b) = w).
+  { pose proof (zlen_sub off (Z.of_nat w) b H1 ltac:(lia) H2) as L. unfold zlen in L. lia. }
+  rewrite <- L at 1. apply le_enc_dec. apply bytes_ok_sub; auto.
+Qed.
+
+Lemma dec_slots_length n b : length (dec_slots n b) = n.
+Proof. revert b; induction n as [|n IH]; intros b; simpl; auto. Qed.
+
+Lemma bytes_ok_zskipn n b : bytes_ok b = true -> bytes_ok (zskipn n b) = true.
+Proof. intros. unfold zskipn. apply bytes_ok_skipn; auto. Qed.
+Lemma bytes_ok_zfirstn n b : bytes_ok b = true -> bytes_ok (zfirstn n b) = true.
+Proof. intros. unfold zfirstn. apply bytes_ok_firstn; auto. Qed.
+
+Lemma dec_slots_ok n b : bytes_ok b = true -> forallb fr_ok (dec_slots n b) = true.
+Proof.
+  revert b; induction n as [|n IH]; intros b OK; simpl; auto.
+  rewrite IH by (apply bytes_ok_zskipn; auto). rewrite andb_true_r.
+  unfold fr_ok. cbn [fr_base fr_limit]. rewrite U16_eq.
+  pose proof (rd2_bound 0 b OK). pose proof (rd2_bound 2 b OK). lia.
+Qed.
+
+Lemma enc_dec_slots n b : bytes_ok b = true -> 4 * Z.of_nat n <= zlen b ->
+  enc_slots (dec_slots n b) = zfirstn (4 * Z.of_nat n) b.
+Proof.
+  revert b; induction n as [|n IH]; intros b OK L.
+  - reflexivity.
+  - cbn [dec_slots]. unfold enc_slots in *. cbn [map concat]. unfold enc_fr at 1. cbn [fr_base fr_limit].
+    change ifd_slot_size with 4.
+    rewrite IH by (try apply bytes_ok_zskipn; auto; rewrite zlen_zskipn; lia).
+    rewrite (le_enc_rd 0 2 b OK) by lia. rewrite (le_enc_rd 2 2 b OK) by lia.
+    change (Z.of_nat 2) with 2. unfold sub. change (zskipn 0 b) with b.
+    pose proof (window_glue b 0 2 2 ltac:(lia) ltac:(lia) ltac:(lia)) as G.
+    change (zskipn 0 b) with b in G. simpl Z.add in G.
+    rewrite app_assoc. rewrite G.
+    pose proof (window_glue b 0 4 (4 * Z.of_nat n) ltac:(lia) ltac:(lia) ltac:(lia)) as G2.
+    change (zskipn 0 b) with b in G2. simpl Z.add in G2. rewrite G2.
+    f_equal. lia.
+Qed.
+
+(* ------------------------------------------------------------------ *)
+(* parsing: the BIOS region                                            *)
+(* ------------------------------------------------------------------ *)
+
+Lemma firstn_skipn_len {A} n (l : list A) : firstn n l ++ skipn (length (firstn n l)) l = l.
+Proof.
+  rewrite firstn_length. destruct (Nat.le_ge_cases n (length l)).
+  - rewrite Nat.min_l by lia. apply firstn_skipn.
+  - rewrite Nat.min_r by lia. rewrite firstn_all2, skipn_all by lia. apply app_nil_r.
+Qed.
+
+Lemma parse_fv_buf data pol vbuf vpol pol1 : parse_fv data pol = Ok (vbuf, vpol, pol1) ->
+  exists n, vbuf = zfirstn n data.
+Proof.
+  unfold parse_fv. destruct (zlen data <? fvh_min_size); [discriminate|].
+  destruct (read_blocks _); simpl; try discriminate.
+  destruct (set_polarity _ _); simpl; try discriminate.
+  destruct (zlen data <? _); [discriminate|].
+  destruct (_ <? fvh_min_size); [discriminate|].
+  destruct (_ || _); [discriminate|].
+  intros [= <- _ _]. eexists. unfold sub. reflexivity.
+Qed.
+
+Lemma bios_parse_concat fuel buf abs pol els pol' :
+  bios_parse fuel buf abs pol = Ok (els, pol') -> concat (map elem_buf els) = buf.
+Proof.
+  revert buf abs pol els pol'. induction fuel as [|k IH]; intros buf abs pol els pol' H; [discriminate|].
+  cbn [bios_parse] in H.
+  destruct (find_fv_offset buf <? 0) eqn:N.
+  - injection H as <- _. destruct (zlen buf =? 0) eqn:Z.
+    + destruct buf; auto. rewrite zlen_cons in Z. pose proof (zlen_nonneg buf). lia.
+    + simpl. apply app_nil_r.
+  - set (offset := find_fv_offset buf) in *.
+    destruct (parse_fv (zskipn offset buf) pol) as [[[vbuf vpol] pol1]| | |] eqn:PF; try discriminate.
+    cbn [bind] in H. destruct (zlen vbuf =? 0); [discriminate|].
+    destruct (bios_parse k _ _ pol1) as [[rest pol2]| | |] eqn:BP; try discriminate.
+    cbn [bind] in H. injection H as <- _.
+    apply IH in BP. apply parse_fv_buf in PF as [n ->].
+    rewrite map_app, concat_app. cbn [map concat elem_buf]. rewrite BP.
+    assert (P : concat (map elem_buf (if 0 <? offset then [BPad (sub 0 offset buf) abs] else [])) =
+                zfirstn offset buf).
+    { destruct (0 <? offset) eqn:O.
+      - simpl. rewrite app_nil_r. reflexivity.
+      - assert (offset = 0) as -> by lia. reflexivity. }
+    rewrite P.
+    rewrite <- (zskipn_zskipn _ offset buf) by (try apply zlen_nonneg; lia).
+    unfold zfirstn at 2 3, zskipn at 1, zlen.
+    rewrite Nat2Z.id. rewrite firstn_skipn_len. apply zfirstn_zskipn.
+Qed.
